@@ -58,6 +58,7 @@ func c01Random(c *Ctx, idx int) {
 // enough for them to select something
 var c01IdxLens = []int{1, 2, 60, 127, 128, 129, 200, 255, 256, 257, 300}
 var c01IdxLits = []string{"0", "1", "-1", "59", "60", "126", "127", "128", "129", "130", "199", "200", "254", "255", "256", "257", "299", "300", "-60", "-127", "-128", "-129", "-200", "-255", "-256", "-257", "-300", "-301",
+	"00", "01", "007", "08", "09", "010", "0010", "011", "017", "018", "077", "0100", "-00", "-01", "-07", "-08", "-010", "-0010", "0000000000000000000000010", "000", "-0",
 	"32767", "32768", "65535", "65536", "-32768", "-32769", "2147483647", "2147483648", "4294967295", "4294967296", "-2147483648", "-2147483649", "9223372036854775807", "-9223372036854775808"}
 
 func c01IndexBoundaries(c *Ctx, idx int) {
